@@ -88,6 +88,37 @@ func C17(c *core.Ctx) {
 			})
 		}
 	}
+	// The two decoders treat some GO TYPES differently, so the field type itself is part of the parity (A-MAP on the positions where it
+	// matters): (1) a property that may be null must be a POINTER when its type has unmarshalers of its own — encoding/json calls
+	// UnmarshalJSON with the token null on a plain value (which then applies nested defaults and checks), yaml.v3 never calls
+	// UnmarshalYAML for a null node; (2) a JSON number is a float64 — encoding/json range-checks a narrower float and fails, yaml.v3
+	// converts silently
+	{
+		cfg := gen.DefaultConfig()
+		inner := func() *fam.Spec {
+			return &fam.Spec{Kind: "object", Props: []*fam.Prop{{Label: "attempts", Spec: &fam.Spec{Kind: "integer", Default: "scalar"}}, {Label: "mode", Spec: &fam.Spec{Kind: "string", Kw: []string{"minLength"}}, Required: true}}}
+		}
+		var ms []member
+		for _, pos := range []string{"nullable-optional", "optional"} {
+			ms = append(ms, member{name: "decoder parity of field types: object " + pos, cfg: cfg, root: place(inner(), pos)})
+		}
+		for _, f := range []string{"float", "double"} {
+			for _, pos := range []string{"required", "optional"} {
+				ms = append(ms, member{name: "decoder parity of field types: number:" + f + " " + pos, cfg: cfg, root: place(&fam.Spec{Kind: "number", Format: f}, pos)})
+			}
+		}
+		for _, mb := range ms {
+			runMember(c, mb, ruleSet("A-MAP", "A-SIB"), 64, func(w *fam.World, fm *fam.FileModel) []fam.Issue {
+				var keep []fam.Issue
+				for _, is := range checkRoot(w, fm) {
+					if is.Rule == "A-MAP" {
+						keep = append(keep, is)
+					}
+				}
+				return append(keep, fam.SibIssues(fm)...)
+			})
+		}
+	}
 	// both decoders bind by the configured tags: the CLI hands the generator the tag list the user wrote (B-FLAG)
 	emit(c, engb.New(c.Prog).FlagWiring("main.main", "main.init$1", "generator.Config"))
 	c.Floor("families", c.Counts["members"], 300, "family members")
